@@ -310,6 +310,27 @@ func init() {
 		v := version.Version{Epoch: argUint(arg(a, 2)), Version: arg(a, 3), Revision: arg(a, 4)}
 		return showBool(vr.SatisfiedBy(v))
 	}
+	// vsatparsed op number epoch upstream revision: the relation comes out of the PARSER (for another operator and number) and
+	// is then given this operator and number by the caller - on the parsed value itself and on a copy of it - before
+	// SatisfiedBy is asked: the exported fields are what counts
+	ops["vsatparsed"] = func(a []string) string {
+		d, err := dependency.Parse("foo (>= 0~decoy), bar (<< 99:99)")
+		if err != nil || d == nil || len(d.Relations) != 2 {
+			return "harness-error"
+		}
+		v := version.Version{Epoch: argUint(arg(a, 2)), Version: arg(a, 3), Revision: arg(a, 4)}
+		out := []string{}
+		for _, r := range d.Relations {
+			vr := r.Possibilities[0].Version
+			if vr == nil {
+				return "harness-error"
+			}
+			vr.Operator, vr.Number = arg(a, 0), arg(a, 1)
+			cp := *vr
+			out = append(out, showBool(vr.SatisfiedBy(v)), showBool(cp.SatisfiedBy(v)))
+		}
+		return strings.Join(out, " ")
+	}
 	// names as they reach Is(): parsed with ParseArch
 	ops["aisnames"] = func(a []string) string {
 		x, err := dependency.ParseArch(arg(a, 0))
